@@ -3213,7 +3213,7 @@ impl Block {
                     new_slips_map.insert(utxo_key, 1);
                 }
             }
-            true
+            valid_tx
         });
 
         if !transactions_valid {
